@@ -136,6 +136,18 @@ def build_db(ft, lemmas, goal_variant):
         t = mmgen.apply('ax-d14', fr14, {'ph0': ph0, 'ph1': ph1}, [])
         st.append(('block', [('d', ('ph0', 'ph2')), ('d', ('ph1', 'ph2')),
                              ('p', 'l14', (TH, IMP(ph0, IMP(ph1, ph0))), mmref.encode_compressed(t, mand(['ph0', 'ph1']), 'none'))]))
+    if 'L15' in lemmas:
+        # a constant (\\k) without a constructor axiom that occurs ONLY inside essential hypotheses, below the second of two sibling
+        # subterms with the same head symbol; the hypothesis is handed on verbatim, so no proof step ever builds \\k, and
+        # nothing but the statements' own text brings it into the slice
+        st.append(('c', ('\\k',)))
+        hyp = IMP(IMP(ph0, ph0), IMP(ph1, A('\\k')))
+        st.append(('block', [('e', 'ax-h.0', (TH, hyp)), ('a', 'ax-h', (TH, IMP(ph0, IMP(ph1, ph0))))]))
+        st.append(('a', 'ax-k', (TH, IMP(IMP(c0, c0), IMP(A('c1'), A('\\k'))))))
+        _, fr15 = frames_of(st)
+        t = mmgen.apply('ax-h', fr15, {'ph0': ph0, 'ph1': ph1}, [('l15.0', [])])
+        st.append(('block', [('e', 'l15.0', (TH, hyp)),
+                             ('p', 'l15', (TH, IMP(ph0, IMP(ph1, ph0))), mmref.encode_compressed(t, mand(['ph0', 'ph1']) + ['l15.0'], 'none'))]))
     _, fr = frames_of(st)
     # goal variants
     if goal_variant == 'refl' and 'L1' in lemmas:
@@ -182,6 +194,9 @@ def build_db(ft, lemmas, goal_variant):
     elif goal_variant == 'twodv' and 'L14' in lemmas:
         target = IMP(c0, IMP(A('c1'), c0))
         t = mmgen.apply('l14', fr, {'ph0': c0, 'ph1': A('c1')}, [])
+    elif goal_variant == 'hyponly' and 'L15' in lemmas:
+        target = IMP(c0, IMP(A('c1'), c0))
+        t = mmgen.apply('l15', fr, {'ph0': c0, 'ph1': A('c1')}, [('ax-k', [])])
     elif goal_variant == 'axiom':
         target = IMP(c0, A('c1'))
         t = ('ax-a', [])
@@ -198,8 +213,8 @@ def specs(thorough):
     for o in orders:
         for notation in (False, True):
             for k in range(0, 12 if thorough else 4):
-                for lem in itertools.combinations(('L1', 'L2', 'L3', 'L4', 'L5', 'L6', 'L7', 'L8', 'L10', 'L12', 'L13', 'L14'), k):
-                    for gv in ('refl', 'rule', 'both', 'dv', 'nested', 'notation', 'gdv', 'dvextra', 'dummy', 'dummydv', 'chain', 'outerhyp', 'latevar', 'twodv', 'axiom'):
+                for lem in itertools.combinations(('L1', 'L2', 'L3', 'L4', 'L5', 'L6', 'L7', 'L8', 'L10', 'L12', 'L13', 'L14', 'L15'), k):
+                    for gv in ('refl', 'rule', 'both', 'dv', 'nested', 'notation', 'gdv', 'dvextra', 'dummy', 'dummydv', 'chain', 'outerhyp', 'latevar', 'twodv', 'hyponly', 'axiom'):
                         out.append((o, notation, lem, gv))
     return out
 
@@ -293,7 +308,7 @@ def slices(db, desc, orig_model):
 
 
 def _kind(label):
-    return {'l1': 'plain', 'l2': 'essential', 'l3': 'disjoint', 'l4': 'nested', 'l5': 'global_dv', 'l6': 'dv_extra_var', 'l7': 'dummy_var', 'l8': 'essential_uses_essential', 'l10': 'dummy_var_global_dv', 'l12': 'outer_block_hypothesis', 'l13': 'late_variable'}.get(label, 'goal')
+    return {'l1': 'plain', 'l2': 'essential', 'l3': 'disjoint', 'l4': 'nested', 'l5': 'global_dv', 'l6': 'dv_extra_var', 'l7': 'dummy_var', 'l8': 'essential_uses_essential', 'l10': 'dummy_var_global_dv', 'l12': 'outer_block_hypothesis', 'l13': 'late_variable', 'l14': 'two_dv', 'l15': 'hypothesis_only_constant'}.get(label, 'goal')
 
 
 def db_chunk(sps):
